@@ -20,6 +20,7 @@ def check(A):
         R.last_ping_writers_rule(A, fl, 'C07')
         R.sweep_complete_rule(A, fl, 'C07')
         R.idle_guard_rule(A, fl, 'C07')
+        R.create_event_rule(A, fl, 'C07')
     R.monitor_default_rule(A, 'C07')
     # a PONG that shares a POST body with buffered messages must not be refused with them:
     # the packet-count gate is exact (rule shared with C02)
